@@ -246,6 +246,15 @@ def r_name_table_single_writer(r, prog):
             n += 1
             if f.path in (A + '::create', A + '::add_named_element'):
                 r.ok('lookup_table written in %s' % f.path.rsplit('::', 1)[-1])
+            elif f.path == A + '::add_module':
+                # modules: registered only when the name is vacant (entry().or_insert), never replacing a definition or a primitive
+                oi = [c for c in f.calls() if c.name() == 'or_insert' and not f.blocks[c.bb].get('cleanup')]
+                en = [c for c in f.calls() if c.name() == 'entry' and not f.blocks[c.bb].get('cleanup')]
+                ow = [c for c in f.calls() if c.name() in ('insert', 'and_modify', 'insert_entry', 'remove') and not f.blocks[c.bb].get('cleanup')]
+                if len(oi) == 1 and len(en) == 1 and not ow and 'parser_scoped_identifier(' in vexpr(f, en[0].args[1]) and vexpr(f, oi[0].args[1]) == 'len(arg1.elements)':
+                    r.ok('add_module registers a module only under a vacant name (it never replaces another element)')
+                else:
+                    r.finding('module-can-replace-element', a['span'], 'add_module can overwrite an entry of the name table: a module that shares its name with a definition or a primitive would take its place')
             else:
                 r.finding('name-table-written-in:%s' % f.path, a['span'], 'Ast::lookup_table is written in %s' % f.path)
     if n < 2:
@@ -253,8 +262,8 @@ def r_name_table_single_writer(r, prog):
     named = {i['self_adt'] for i in prog.impls_of('slicec::grammar::traits::NamedSymbol')}
     for c in prog.callers_of(A + '::add_element'):
         t = c.targs[0] if c.targs else '?'
-        if c.fn.path == A + '::add_named_element':
-            r.ok('add_named_element adds the element after registering its name')
+        if c.fn.path in (A + '::add_named_element', A + '::add_module'):
+            r.ok('%s adds the element after registering its name' % c.fn.path.rsplit('::', 1)[-1])
             continue
         if t in named:
             r.finding('named-element-added-unnamed:%s' % t.rsplit('::', 1)[-1], c.span, '%s adds a %s with add_element: it is in the AST but cannot be retrieved by its scoped name' % (c.fn.path, t))
